@@ -42,6 +42,7 @@ FIXES = [
     ("fix: cap the minimum deposit at the largest amount", "D19", ["C20"], "regress/C20/d19-price-times-multiple-overflows.json"),
     ("fix: MockToken.ToMinCoin returns an error", "D20", ["C20"], "regress/C20/d20-main-unit-price-overflows-conversion.json"),
     ("fix: the requests-of-a-batch and responses-of-a-batch queries", "D21", ["C17"], "regress/C17/d21-batch-queries-accept-a-short-context-id.json"),
+    ("fix: keep what a module does to its context", "D22", ["C09"], "regress/C09/d22-kill-inside-response-callback-undone.json"),
 ]
 
 
